@@ -1,3 +1,4 @@
+// build: no-xen
 //! C02: every address query of GuestMemory / GuestMemoryRegion on GuestMemoryMmap layouts and on
 //! MockMem, a harness-defined implementor that relies on every provided (default) method.
 //! case:  kind(0 mmap, 1 mock) mode [starts] [lens] op a b c
